@@ -38,7 +38,8 @@ def main():
     ids = sys.argv[1:] or sorted(d for d in os.listdir(sdir) if os.path.isfile(
         os.path.join(sdir, d, 'patch.diff')))
     first = {'caught': {}, 'exit2': {}, 'missed': []}
-    for name in ('_first_run_round2.json', '_first_run_round3.json'):
+    for name in ('_first_run_round2.json', '_first_run_round3.json',
+                 '_first_run_round4.json'):
         fr = os.path.join(sdir, name)
         if os.path.exists(fr):
             d = json.load(open(fr))
@@ -80,8 +81,9 @@ def main():
                for k, v in sorted(res.items()) if k != 'error']
         meta = {
             'id': sid, 'property': prop, 'property_title': PROPS.get(prop, ''),
-            'round': 3 if sid.startswith('r3-') else (
-                2 if sid.startswith('r2-') else 1),
+            'round': 4 if sid.startswith('r4-') else (
+                3 if sid.startswith('r3-') else (
+                    2 if sid.startswith('r2-') else 1)),
             'source': 'fresh sub-agent given only the property text and a '
                       'scratch worktree of /repo (nothing from /verif)',
             'base_commit': old.get('base_commit', '9b5cc53'),
